@@ -654,8 +654,11 @@ func (s Emitter) WriteExpression(output io.Writer, expression cypher.Expression)
 		}
 
 	case *cypher.FunctionInvocation:
-		if _, err := io.WriteString(output, strings.Join(typedExpression.Namespace, ".")); err != nil {
-			return err
+		if len(typedExpression.Namespace) > 0 {
+			// every namespace part, the last one included, is followed by a dot: a.b.name(...)
+			if _, err := io.WriteString(output, strings.Join(typedExpression.Namespace, ".")+"."); err != nil {
+				return err
+			}
 		}
 
 		if _, err := io.WriteString(output, typedExpression.Name); err != nil {
